@@ -1,7 +1,7 @@
 (* C20 -- Wilson models respect their own maxima, bounds and fixed points.
-   Statements only; proofs in Lemmas/LC20.v.  Wilson_Stratified.py / Wilson_V50.py are regenerated each run. *)
-From Coq Require Import Reals List Bool ZArith.
-From DHV Require Import NumOps RInst LC20 LIl LWS.
+   Statements only; proofs in Lemmas/LC20.v, Lemmas/LWS.v and Lemmas/LV50.v.  Wilson_Stratified.py / Wilson_V50.py are regenerated each run. *)
+From Coq Require Import Reals List Bool ZArith Lra.
+From DHV Require Import NumOps RInst LC20 LIl LWS LV50.
 From DHV Require Constants Homogeneous WilsonStratified WilsonV50.
 Local Open Scope R_scope.
 
@@ -45,6 +45,43 @@ Theorem C20_V50_result : forall (fuel : nat) (Dp d50 d85 eps nu rhol rhos ffl' v
   (0 <= fft' -> 0 <= ffl' -> Rabs (fft' - ffl') < 1 / 10000).
 Proof. exact LC20.V50_result. Qed.
 Print Assumptions C20_V50_result.
+
+(* the V50 iteration TERMINATES on the envelope (steel roughness 0.045..0.1 mm): the friction-factor map is monotone
+   on [0.01, 0.036] and maps it into itself, so the iterates move one way and can change their 4-digit bin at most 360
+   times; the loop of the model returns within 361 passes (the correspondence runs it with fuel 400) ... *)
+Theorem C20_V50_terminates : forall (Dp d50 eps nu rhol rhos : R), v50E Dp d50 eps nu rhol rhos ->
+  forall fuel : nat, (360 < fuel)%nat ->
+  let w50 := WilsonV50.w RN d50 nu rhol rhos in
+  exists a, WilsonV50.V50_loop1 RN fuel w50 Dp d50 nu eps (12 / 1000) (v50_of w50 Dp d50 (12 / 1000))
+            (Homogeneous.pipe_reynolds_number RN (v50_of w50 Dp d50 (12 / 1000)) Dp nu)
+            (Homogeneous.swamee_jain_ff RN (Homogeneous.pipe_reynolds_number RN (v50_of w50 Dp d50 (12 / 1000)) Dp nu) Dp eps)
+       = Some (a, vof w50 Dp d50 a, reof w50 Dp d50 nu a, gV w50 Dp d50 nu eps a) /\
+       1 / 100 <= a <= 36 / 1000 /\ bin (gV w50 Dp d50 nu eps a) = bin a.
+Proof. exact LV50.V50_terminates. Qed.
+Print Assumptions C20_V50_terminates.
+
+(* ... so the fuel of the model is immaterial: any two fuels above 360 give the same V50 (the unfuelled Python loop) *)
+Theorem C20_V50_fuel_independent : forall (Dp d50 d85 eps nu rhol rhos : R), v50E Dp d50 eps nu rhol rhos ->
+  forall f1 f2 : nat, (360 < f1)%nat -> (360 < f2)%nat ->
+  WilsonV50.V50 RN f1 Dp d50 d85 eps nu rhol rhos = WilsonV50.V50 RN f2 Dp d50 d85 eps nu rhol rhos.
+Proof. exact LV50.V50_fuel_independent. Qed.
+Print Assumptions C20_V50_fuel_independent.
+
+(* ... and the returned V50 satisfies its implicit equation V = w sqrt(8 / lambda(Re(V))) cosh(60 d50 / Dp) within
+   0.1 % (the property asks 0.5 %) *)
+Theorem C20_V50_equation : forall (Dp d50 d85 eps nu rhol rhos : R), v50E Dp d50 eps nu rhol rhos ->
+  forall fuel : nat, (360 < fuel)%nat ->
+  let V := WilsonV50.V50 RN fuel Dp d50 d85 eps nu rhol rhos in
+  let F := WilsonV50.w RN d50 nu rhol rhos
+           * sqrt (8 / Homogeneous.swamee_jain_ff RN (Homogeneous.pipe_reynolds_number RN V Dp nu) Dp eps) * cosh (60 * d50 / Dp) in
+  0 < V /\ 0 < F /\ Rabs (V - F) <= 1 / 1000 * F.
+Proof. exact LV50.V50_equation. Qed.
+Print Assumptions C20_V50_equation.
+
+(* the envelope is inhabited *)
+Theorem C20_V50_nonvacuous : v50E (5 / 10) (1 / 1000) (45 / 1000000) (1 / 1000000) 1 (265 / 100).
+Proof. unfold v50E. lra. Qed.
+Print Assumptions C20_V50_nonvacuous.
 
 (* both models' gradients exceed the water gradient *)
 Theorem C20_exceeds_water : forall (fuel : nat) (vls Dp d d85 eps nu rhol rhos musf Cv Cvb : R),
